@@ -7,12 +7,28 @@ ids = [json.loads(l)['id'] for l in open('/verif/properties.jsonl')]
 claimed = [c['property_id'] for c in m['checks']]
 na = [c['property_id'] for c in m.get('not_applicable', [])]
 assert sorted(claimed + na) == sorted(ids), (sorted(set(ids) - set(claimed) - set(na)), [x for x in claimed if x in na])
+bad = []
 for c in m['checks']:
     try:
         ev = json.load(open(c['evidence_file']))
         jsonschema.validate(ev, es)
         cov = ev['coverage']
+        # a proof-level record is valid only when every obligation was discharged and the run reported no violation:
+        # an evidence file written by a run that raised an alarm (e.g. timeouts on an overloaded machine) must not be committed
+        if ev['level'] == 'proof':
+            if cov.get('obligations', 0) <= 0 or cov.get('discharged') != cov.get('obligations') or ev.get('violations', 0) != 0:
+                bad.append('%s: discharged %s of %s obligations, violations %s' % (c['property_id'], cov.get('discharged'), cov.get('obligations'), ev.get('violations')))
+            if not cov.get('samples'):
+                bad.append('%s: no samples' % c['property_id'])
+        if ev['property_id'] != c['property_id']:
+            bad.append('%s: evidence file is for %s' % (c['property_id'], ev['property_id']))
         print(c['property_id'], 'evidence ok', ev['level'], cov.get('obligations'), cov.get('discharged'), 'viol', ev.get('violations'))
     except FileNotFoundError:
         print(c['property_id'], 'NO EVIDENCE')
+        bad.append('%s: no evidence file' % c['property_id'])
 print('manifest ok: claimed', len(claimed), 'n/a', len(na))
+if bad:
+    print('INVALID EVIDENCE (re-run the check on an idle machine before committing):')
+    for b in bad:
+        print('  ' + b)
+    sys.exit(1)
